@@ -35,7 +35,7 @@ func reg(p *propCfg) {
 }
 
 func init() {
-	reg(&propCfg{ID: "C10", QuickRuns: 4000, QuickSecs: 40, ThoroughRuns: 400000, ThoroughSecs: 780, Chunk: 50,
+	reg(&propCfg{ID: "C10", QuickRuns: 12000, QuickSecs: 40, ThoroughRuns: 400000, ThoroughSecs: 780, Chunk: 50,
 		Level:    "fault_enumeration",
 		RuleNote: "C10 strata: 'enum' = fixed 3-caller session with the server->client stream cut (EOF / reset) after an enumerated byte offset 0..600 (stride 7 so that any prefix of runs spreads over the whole session), schedules sampled; 'random' = 1..8 callers with a drawn fault (cut-eof, cut-reset, write-err, Unmount at a drawn step, unparseable / undersize / oversize frame, reply to unknown tag, peer close, stalled peer that later resets), replies withheld with drawn probability; 'control' = no fault, every call must succeed.",
 		Real:     []string{"go9p client library (Clnt, Rpc/Rpcnb, recv/send goroutines, pools, Logger) — instrumented copy of /repo", "Go runtime, channels, mutexes"},
@@ -72,4 +72,29 @@ func init() {
 		RuleNote:   "C11: a victim and a bystander connection run C03-style pipelined histories (fids attached, walked, opened, created, clunked, removed; up to 4 victim requests parked in the implementation); the victim's client end is closed, reset, or closed in the middle of a frame at a drawn step / at the first quiescence with requests parked / when idle; parked requests are released afterwards in scheduler-chosen order; then the bystander and a fresh connection are probed.",
 		Real:       srvReal, Stub: srvStub,
 		ProbeNames: []string{"cut-with-requests-parked", "3+-held-simultaneously", "release-order-differs-from-arrival"}})
+}
+
+func init() {
+	reg(&propCfg{ID: "C13", QuickRuns: 3000, QuickSecs: 40, ThoroughRuns: 200000, ThoroughSecs: 780, Chunk: 40,
+		Level:      "exploration",
+		RuleNote:   "C13 server strata: a session of 40..120 (thorough ..400) messages mixing 9/11-byte messages, Twrite up to msize-1 and Twstat of exactly msize bytes, msize 96..4096 so the 8 x msize receive buffer wraps many times, delivered by policy (1 byte per read, 1..3 bytes, random, everything, mixed), written in one piece, or with exactly one split point enumerated by run index (stride 13); some requests parked so that later bytes arrive while their payload is still referenced; 'server-fifo' issues the whole session under one tag (execution and reply order checked), 'server-concurrent' under distinct tags. Expected invocations and replies are a function of the stream. Stratum 'client' feeds the library client's receive loop a scripted reply stream (reads up to msize-24, stats) under the same policies.",
+		Real:       append(append([]string{}, srvReal...), "go9p client receive loop (client stratum)"), Stub: srvStub,
+		ProbeNames: []string{"message-of-exactly-msize", "session-larger-than-receive-buffer", "split-inside-first-size-prefix"}})
+}
+
+func init() {
+	reg(&propCfg{ID: "C12", QuickRuns: 2500, QuickSecs: 40, ThoroughRuns: 200000, ThoroughSecs: 780, Chunk: 50,
+		RuleNote:   "C12 strata by run index: 'grid' enumerates server msize {default,24,25,64,300,8192,1 MiB+24} x client msize {0,23,24,25,server-1,server,server+1,2^32-1,200,4096} x server dialect x version string {9P2000,9P2000.u,9P2000.L,'',unknown} (700 cells, each revisited under new schedules) and then measures every reply kind on the wire with the script producing Rstat / Rerror at msize-1, msize, msize+1, 2*msize, reads up to msize-24 and a 16-element walk; 'bad-frame' announces sizes 0..6, msize+1, 8*msize+1, 2^31, 2^32-1 with and without a partial body; 'client' runs Connect against scripted Rversion (msize <,=,> the client's, five version strings); 'renegotiate' sends a second Tversion with a smaller msize after the reply-buffer pool was filled, optionally with requests parked.",
+		Real:       append(append([]string{}, srvReal...), "go9p client Connect/Attach (client stratum)"), Stub: srvStub,
+		ProbeNames: []string{"msize-too-small-refused", "rstat-sent", "reply-refused-for-size", "rerror-full-text-sent", "rerror-shortened-or-replaced", "reply-buffer-older-than-negotiation", "renegotiation-with-requests-outstanding"}})
+}
+
+var clntReal = []string{"go9p client library (Clnt, Rpc/Rpcnb, recv/send goroutines, tag and request pools, Tag interface, Logger) — instrumented copy of /repo", "Go runtime, channels, mutexes"}
+var clntStub = []string{"9P server: scripted peer with an independent codec, answering in scheduler-chosen order", "transport: simulated net.Conn (segmentation, back-pressure)"}
+
+func init() {
+	reg(&propCfg{ID: "C09", QuickRuns: 2000, QuickSecs: 40, ThoroughRuns: 200000, ThoroughSecs: 780, Chunk: 25,
+		RuleNote:   "C09: stratum 'concurrent': 1..16 (thorough ..64) caller goroutines with 2..8 calls each (Read, Write, Stat, Walk, Open, Clunk, reads answered with Rerror text+number, reads answered with a reply of the wrong type, pipelined Tag-interface reads sharing a tag); the scripted server withholds replies with drawn probability and releases them one per phase in scheduler-chosen order, replies segmented by policy; reply content is a function of the request. Stratum 'long-run' (every 50th run): 10 000 (thorough 70 000 > 65 535) consecutive calls over one connection.",
+		Real:       clntReal, Stub: clntStub,
+		ProbeNames: []string{"8+-calls-outstanding", "32+-calls-outstanding", "replies-delivered-out-of-order", "tag-value-reused-after-free", "5+-replies-withheld"}})
 }
